@@ -171,16 +171,17 @@ resolution yields exactly the facts the layout denotes: header, super types, eve
 flags, name, descriptor and attributes (nothing attached to another member), `BootstrapMethods` made available to
 the methods whatever its position, unknown attributes byte for byte.
 
-Fragment (attributes covered by the theorem): class — `Deprecated Synthetic SourceFile Signature InnerClasses
-EnclosingMethod NestHost NestMembers PermittedSubclasses BootstrapMethods RuntimeVisibleAnnotations
-RuntimeInvisibleAnnotations` + unknown; field — `Deprecated Synthetic ConstantValue Signature RuntimeVisibleAnnotations
+Fragment (attributes covered by the theorem): class — `Deprecated Synthetic SourceFile SourceDebugExtension Signature
+InnerClasses EnclosingMethod NestHost NestMembers PermittedSubclasses BootstrapMethods RuntimeVisibleAnnotations
+RuntimeInvisibleAnnotations RuntimeVisibleTypeAnnotations RuntimeInvisibleTypeAnnotations Record` (components with
+`Signature`, annotations, type annotations, unknown attributes) `Module ModulePackages ModuleMainClass` + unknown; field — `Deprecated Synthetic ConstantValue Signature RuntimeVisibleAnnotations
 RuntimeInvisibleAnnotations` + unknown; method — `Deprecated Synthetic Code Exceptions Signature
-RuntimeVisibleAnnotations RuntimeInvisibleAnnotations AnnotationDefault MethodParameters` + unknown; `Code` —
+Runtime(In)VisibleAnnotations Runtime(In)VisibleTypeAnnotations AnnotationDefault MethodParameters` + unknown; `Code` —
 `StackMapTable LineNumberTable LocalVariableTable LocalVariableTypeTable` + unknown, exception table.
 Annotation attributes may occur several times (their annotations are concatenated in file order).
 Outside the fragment (modelled, tied by the correspondence run and the oracles only): `StackMap` (CLDC),
-`Runtime(In)VisibleTypeAnnotations` (of every owner), `Runtime(In)VisibleParameterAnnotations` (dropped by the reader, see
-the witness), `SourceDebugExtension`, `Record`, `Module`, `ModulePackages`, `ModuleMainClass`. -/
+`Runtime(In)VisibleTypeAnnotations` inside `Code`, `Runtime(In)VisibleParameterAnnotations` (dropped by the reader, see
+the witness). -/
 theorem class_read_encode_partial (c : ClassLayout) (hleg : c.Legal) (facts : ClassFacts) (hfacts : c.facts = some facts)
     (r : Bytes) : ∃ raw, ClassRead.read (c.encode ++ r) = ok (raw, r) ∧ raw.resolve = some facts :=
   read_encode c hleg facts hfacts r
@@ -212,15 +213,5 @@ theorem parameter_annotations_dropped_witness (p : Pool) (bsms : Option (List Bs
         sRIPA ≠ sRIA ∧ sRIPA ≠ sRVTA ∧ sRIPA ≠ sRITA ∧ sRIPA ≠ sRVPA by decide,
       show sRVPA ≠ sDeprecated ∧ sRVPA ≠ sSynthetic ∧ sRVPA ≠ sCode ∧ sRVPA ≠ sExceptions ∧ sRVPA ≠ sSignature ∧ sRVPA ≠ sRVA ∧
         sRVPA ≠ sRIA ∧ sRVPA ≠ sRVTA ∧ sRVPA ≠ sRITA by decide]
-
-/-- the CLDC `StackMap` attribute (outside the fragment; a defect of the reader): its frames are sorted by **label id**
-(`frames.sort_by_key(|&(label, _)| label)`), and ids are handed out in creation order, not in offset order.  Frames
-listed by increasing offset (0 then 4) whose labels were created the other way round (the branch target 4 during the
-first pass: id 0; offset 0 while reading the attribute: id 1) end up as `[(0, frame@4), (1, frame@0)]`; at the first
-instruction (label id 1) `takeFrame` looks at the head only, finds id 0, and the frame of offset 0 is never delivered. -/
-theorem cldc_stackmap_frame_order_witness :
-    (takeFrame (some (([(1, Frame.full [.int] []), (0, Frame.full [.float] [])] : List (Nat × Frame)).mergeSort
-      (fun a b => decide (a.1 ≤ b.1)))) (some 1)).1.isNone = true := by
-  simp [List.mergeSort, List.MergeSort.Internal.splitInTwo, takeFrame]
 
 end Thm.C01
